@@ -33,6 +33,7 @@ Proof.
     + destruct x; [apply numc_eq_refl; discriminate | apply numc_eq_refl; discriminate | reflexivity].
     + cbn. apply str_eqb_refl.
   - (* VXml *) rewrite xkind_eqb_refl, lZ_eqb_refl, oZ_eqb_refl. reflexivity.
+  - (* VStd *) rewrite lZ_eqb_refl, andb_true_r. destruct k; reflexivity.
   - (* VEnum *) rewrite cref_eqb_refl, str_eqb_refl. reflexivity.
 Qed.
 
